@@ -278,7 +278,12 @@ def runAct [DecidableEq κ] (cfg : Cfg κ) (exec : Exec κ) (recursive : Bool) (
     | .error e => .error e
     | .ok plainOk =>
       let upRan := recursive && ups.any (didRun w)
-      let pre := noInputs || !sumOk || !plainOk || upRan
+      -- an owned input whose recorded checksum differs from what its owner records now
+      let ownedStale := stg.inputs.any fun a =>
+        match findOwner wa w.idx a.path with
+        | some (_, oa) => a.sum != oa.sum
+        | none => false
+      let pre := noInputs || !sumOk || !plainOk || upRan || ownedStale
       let outsOk : Except Err Bool := if pre then .ok true else allMatch cfg w (sortArts stg.outputs)
       match outsOk with
       | .error e => .error e
